@@ -14,6 +14,11 @@
 (*           read so far is a prefix of the original plaintext                *)
 (*  end      term in {"eof","err","decrypt-err","hang"}, released, equal      *)
 (*           (everything read = the original plaintext)                       *)
+(*  openat   shi, slo, slast / hi, lo, last, ok, wrote: a segment sealed for  *)
+(*           position (N = shi*65536+slo, slast) was handed to the segment    *)
+(*           decryptor at position (N' = hi*65536+lo, last); ok: it was       *)
+(*           accepted; wrote: bytes it released (16-bit halves: TLC integers  *)
+(*           are 32-bit signed)                                               *)
 (*                                                                            *)
 (* Laws:                                                                      *)
 (*  L1  every released byte is part of a prefix of the original plaintext     *)
@@ -21,6 +26,8 @@
 (*      plaintext (a shortened or altered message never ends cleanly)         *)
 (*  L3  a source-reader error never ends in a clean EOF                       *)
 (*  L4  nothing is released when Decrypt returned an error; the stream ends   *)
+(*  L5  position binding over the whole 32-bit counter range: a segment opens *)
+(*      iff (N', last') = (N, last); a rejected segment releases nothing      *)
 (*                                                                            *)
 (* NAMED DEVIATION HeaderOnlyTruncation: by construction of the published     *)
 (* format an empty message has no segment at all, so a document cut right     *)
@@ -52,11 +59,19 @@ CEnd(c, e) ==
          ELSE Bad("altered message ended in a clean EOF")
   ELSE c
 
+COpenAt(c, e) ==
+  LET own == e.shi = e.hi /\ e.slo = e.lo /\ e.slast = e.last IN
+  IF e.ok /\ ~own THEN Bad("segment accepted at another position")
+  ELSE IF ~e.ok /\ own THEN Bad("segment rejected at its own position")
+  ELSE IF ~e.ok /\ e.wrote > 0 THEN Bad("rejected segment released bytes")
+  ELSE c
+
 CNext(c, e) ==
   IF e.ev = "reset" THEN CReset(e)
   ELSE IF IsBad(c) THEN c
   ELSE CASE e.ev = "srcerr"  -> [c EXCEPT !.srcErr = TRUE]
          [] e.ev = "decrypt" -> [c EXCEPT !.decErr = e.err]
          [] e.ev = "release" -> CRelease(c, e)
+         [] e.ev = "openat"  -> COpenAt(c, e)
          [] e.ev = "end"     -> CEnd(c, e)
 =============================================================================
